@@ -159,6 +159,26 @@ async fn run_one(beh: &Value, root: &Path, snaps: &Arc<Mutex<Vec<(String, PathBu
                 if w != st["w"].as_u64().unwrap() {
                     return Err(format!("step {i}: after restart the watermark is {w}, specification {}", st["w"]));
                 }
+                // the state files alone: a manager initialised on the same files over a database
+                // that holds no events gives back exactly what was loaded
+                {
+                    let edir = root.join("files-only");
+                    let _ = std::fs::remove_dir_all(&edir);
+                    let edb = open_db(&edir, 1);
+                    let econf = edir.join("buckets").join("00000").join("confirmation");
+                    copy_dir(&conf_dir, &econf);
+                    let mut m2 = BucketConfirmationManager::new(edir.clone(), 1, rf, parts.clone());
+                    m2.initialize(&edb).await.map_err(|e| format!("step {i}: initialize on the state files alone failed: {e}"))?;
+                    let lw = wm(&m2);
+                    drop(m2);
+                    edb.shutdown().await;
+                    // (update_confirmation also persists on its own - on the first update and then every
+                    // 100 changes or 5 s -, so the files may be newer than the model's, never older)
+                    if lw < st["lw"].as_u64().unwrap() {
+                        return Err(format!("step {i}: restart from the state files alone gives watermark {lw}, the specification's files give at least {} (files: {:?})", st["lw"],
+                            std::fs::read_dir(&conf_dir).map(|d| d.flatten().map(|e| e.file_name().to_string_lossy().to_string()).collect::<Vec<_>>()).unwrap_or_default()));
+                    }
+                }
                 last_w = w;
                 mgr = Some(m);
             }
